@@ -24,22 +24,25 @@ ASSUMPTIONS = [
     'unit quaternions / proper rotation matrices only; matrices are produced by the reference model mc/ref/quat.py R(q)',
     'relative angles are 0 (same rotation, incl. q2 = -q1) or lie in [1e-4, pi]; nothing is demanded in (0, 1e-4)',
     'oracle: relative angle t from mc/ref/quat.py qangle (atan2 form, well conditioned everywhere); closed forms '
-    'qad=t, qcip=t/2, qeip=1-cos(t/2), qdist=sqrt(2(1-cos(t/2))) [evaluated as 2 sin(t/4)], '
+    'qad=t, qcip=t/2, qeip=1-cos(t/2), qdist=sqrt(2(1-cos(t/2))) [evaluated as 2 sin^2(t/4), 2 sin(t/4)], '
     'chordal=identity_deviation=2 sqrt2 sin(t/2), angular_distance=sqrt2 t',
-    'tolerance 1e-9 absolute for every equality (closed form, symmetry, sign, invariance, triangle slack); worst observed '
-    'on the unchanged tree outside the reported defects: 2.3e-12 (qad/qcip at t=1e-4: arccos conditioning eps/sin t), '
-    '<= 5e-15 for the others; smallest realistic mutation (factor 2 / sqrt2 / dropped abs) moves a value by >= 1e-5 at t >= 1e-2',
-    'angular_distance within 1e-3 of pi: tolerance 1e-6 (a well-conditioned log is good to 1e-15 there; the documented '
-    'arccos form loses eps/(pi-t)^2, 4e-10 at pi-1e-3)',
-    'zero set: same rotation -> |d| <= 1e-9; different rotations (t >= 1e-4) -> d >= closed_form(t)/2 > 0',
+    'tolerance 1e-9 absolute for symmetry, sign, invariance (library value against library value: observed <= 4.4e-15) and '
+    'for the closed forms of qdist, qeip, chordal, identity_deviation, angular_distance (observed <= 4.1e-15 over the thorough '
+    'alphabet on a tree with a well-conditioned DCM.log)',
+    'closed forms of the arccos-based qad, qcip: 1e-8 (their documented formulas have conditioning eps/sin t: observed '
+    '1.8e-11 / 9.0e-12 at t = 1e-4 and 4.4e-11 at pi - 1e-6); triangle slack 1e-8 (observed excess 2.0e-11); the smallest '
+    'realistic mutation (factor 2 or sqrt2, dropped abs / square / transpose, shortcut threshold) moves a value by >= 1e-5',
+    'angular_distance within 1e-3 of pi: tolerance 1e-6 as designed (an arccos-of-trace log loses eps/(pi-t)^2 = 4e-10 at '
+    'pi - 1e-3; the atan2 form observed here is good to 2e-15)',
+    'zero set: same rotation -> |d| <= 1e-9; different rotations (t >= 1e-4) -> d >= closed_form(t)/2 > 0; in the invariance '
+    'tables a coincident pair (gp, gq = +-gp) is judged by the zero-set law, a distinct pair by the invariance law',
+    'non-negativity is judged up to rounding (d >= -1e-12; observed -2.2e-16 from qeip[N-row] on identical rows)',
     'N-row entry points are demanded for the functions that document them (qdist, qeip, qcip, qad, chordal); '
     'identity_deviation / angular_distance are documented for one 3x3 pair and are exercised through that entry only '
     '(their behaviour on (N,3,3) input is recorded in the evidence notes, not judged)',
     'the triangle inequality is demanded for angular_distance, qad, qcip, chordal, qdist, identity_deviation (qeip = 1-cos(t/2) '
     'is not a metric and is excluded)',
-    'near-pi grid stops at pi-1e-6 and pi itself; qad = arccos(2<q1,q2>^2-1) has conditioning eps/(pi-t): tolerance 1e-8 '
-    'within 1e-5 of pi (observed 4.4e-11 at pi-1e-6), exact at pi',
-    'non-negativity is judged up to rounding (d >= -1e-12; observed -2.2e-16 from qeip[N-row] on identical rows)',
+    'the near-pi grid stops at pi - 1e-6 and pi itself (exactly symmetric and rounding-level asymmetric half-turns both occur)',
 ]
 REQUIRED_CLASSES = ['pairs:group', 'pairs:conjugate', 'zero:same', 'zero:antipodal', 'angle:pi', 'angle:<1e-2',
                     'angle:near-pi', 'inv:left', 'inv:right', 'triangle:tight', 'triangle:strict', 'triangle:geodesic',
@@ -47,7 +50,8 @@ REQUIRED_CLASSES = ['pairs:group', 'pairs:conjugate', 'zero:same', 'zero:antipod
 
 TOL = 1e-9
 TOL_NEARPI = 1e-6
-TOL_QAD_NEARPI = 1e-8
+TOL_ARCCOS = 1e-8      # closed forms of the arccos-based metrics (conditioning eps/sin t)
+TOL_TRI = 1e-8         # slack of the triangle inequality (sums three such values)
 SAME = 1e-12
 NEG = 1e-12            # non-negativity up to rounding (worst observed: qeip[N-row] = -2.2e-16 on identical rows)
 QM = ('qdist', 'qeip', 'qcip', 'qad')
@@ -85,8 +89,8 @@ def tstr(t):
 def tol_cf(m, t):
     if m == 'angular_distance' and math.pi - t <= 1.0000001e-3:
         return TOL_NEARPI
-    if m == 'qad' and 0 < math.pi - t <= 1.0000001e-5:
-        return TOL_QAD_NEARPI
+    if m in ('qad', 'qcip'):
+        return TOL_ARCCOS
     return TOL
 
 
@@ -170,7 +174,7 @@ def _judge(ctx, m, e, v, t, keyf):
         ctx.fail(f'{m}[{e}] is finite and >= 0', keyf(), v, '>= 0', NEG)
     ref = CF[m](t)
     _near(ctx, v, ref, tol_cf(m, t), f'{m}[{e}] = closed form in the relative angle', keyf,
-          track=f'cf.{m}' + ('.nearpi' if (m == 'angular_distance' and math.pi - t <= 1.0000001e-3) else ''))
+          track=f'cf.{m}' + ('.nearpi' if tol_cf(m, t) != TOL else ''))
     ctx.evals += 1
     if t <= SAME:
         if not (abs(v) <= TOL):
@@ -383,7 +387,7 @@ def job_tri(ctx, sname, k, m):
         for e, D in tables.items():
             lhs = D[a][None, :]                     # d(a, c)
             rhs = D[a][:, None] + D                 # d(a, b) + d(b, c)
-            bad = np.argwhere(~(lhs <= rhs + TOL))
+            bad = np.argwhere(~(lhs <= rhs + TOL_TRI))
             ctx.evals += n * n
             slack = lhs - rhs
             if np.isfinite(slack).any():
@@ -392,7 +396,7 @@ def job_tri(ctx, sname, k, m):
                 _fail_many(ctx, f'{m}[{e}] triangle inequality d(a,c) <= d(a,b) + d(b,c)', [tuple(x) for x in bad],
                            lambda x: f'{sname}#k{k} a={a} b={x[0]} c={x[1]} tab={tstr(T[a, x[0]])} tbc={tstr(T[x[0], x[1]])} tac={tstr(T[a, x[1]])}',
                            lambda x: {'d(a,c)': D[a, x[1]], 'd(a,b)': D[a, x[0]], 'd(b,c)': D[x[0], x[1]]},
-                           lambda x: 'd(a,c) <= d(a,b) + d(b,c)', TOL)
+                           lambda x: 'd(a,c) <= d(a,b) + d(b,c)', TOL_TRI)
     ctx.max_depth = max(ctx.max_depth, 2)
     if first:
         ctx.sample({'triangle_table': sname, 'k': k, 'metric': m, 'a': S[0].tolist(), 'b': S[1].tolist(), 'c': S[-1].tolist(),
@@ -499,9 +503,9 @@ def job_cf(ctx, pidx):
                     ctx.evals += 1
                     if dac == dac and dab == dab and dbc == dbc:
                         ctx.track(f'triangle.excess.{m}', max(0.0, dac - dab - dbc))
-                    if not (dac <= dab + dbc + TOL):
+                    if not (dac <= dab + dbc + TOL_TRI):
                         ctx.fail(f'{m}[single] triangle inequality d(a,c) <= d(a,b) + d(b,c)', key_,
-                                 {'d(a,c)': dac, 'd(a,b)': dab, 'd(b,c)': dbc}, 'd(a,c) <= d(a,b) + d(b,c)', TOL)
+                                 {'d(a,c)': dac, 'd(a,b)': dab, 'd(b,c)': dbc}, 'd(a,c) <= d(a,b) + d(b,c)', TOL_TRI)
                 ctx.cls('triangle:geodesic')
                 ctx.seen(('geo', key_))
                 ctx.transitions += 1
